@@ -157,6 +157,31 @@ func drawPair(t *rapid.T) (x, y proto.Message, desc string) {
 		x.ProtoReflect().SetUnknown(drawUnknown(t, "unkx"))
 		y.ProtoReflect().SetUnknown(drawUnknown(t, "unky"))
 		desc += " unknown fields (independent)"
+	case 7, 8:
+		// the same float field holds a NaN on both sides, only not the same NaN (the quiet NaN, the x86 0/0 result, a NaN
+		// with a payload): protobuf equality says NaN equals NaN
+		fields := x.ProtoReflect().Descriptor().Fields()
+		for i := 0; i < fields.Len(); i++ {
+			fd := fields.Get(i)
+			if fd.IsList() || fd.IsMap() || fd.ContainingOneof() != nil {
+				continue
+			}
+			nans := []uint64{0x7FF8000000000001, 0xFFF8000000000000, 0x7FF8000000000123}
+			a := rapid.IntRange(0, 2).Draw(t, "nanX")
+			b := rapid.IntRange(0, 2).Draw(t, "nanY")
+			switch fd.Kind() {
+			case pref.DoubleKind:
+				x.ProtoReflect().Set(fd, pref.ValueOfFloat64(math.Float64frombits(nans[a])))
+				y.ProtoReflect().Set(fd, pref.ValueOfFloat64(math.Float64frombits(nans[b])))
+			case pref.FloatKind:
+				x.ProtoReflect().Set(fd, pref.ValueOfFloat32(math.Float32frombits([]uint32{0x7FC00000, 0xFFC00000, 0x7FC00123}[a])))
+				y.ProtoReflect().Set(fd, pref.ValueOfFloat32(math.Float32frombits([]uint32{0x7FC00000, 0xFFC00000, 0x7FC00123}[b])))
+			default:
+				continue
+			}
+			desc += fmt.Sprintf(" NaN bit patterns %d / %d in %s", a, b, fd.Name())
+			break
+		}
 	}
 	return x, y, desc
 }
